@@ -51,6 +51,15 @@ func genC09(seed uint64, tier string) *Plan {
 	genDegrees(r, p, 4)
 	add := func(op string, a ...int64) { p.Items = append(p.Items, Item{Op: op, A: a}) }
 	add("node-sub", 0)
+	two := r.chance(0.35)
+	if two {
+		// two joined topics and a behaviour penalty: a GRAFT refused inside the back-off is penalised,
+		// which can turn the sender's score negative in the middle of one RPC
+		add("node-sub", 1)
+		p.Knobs["behaviour_weight"] = []float64{-1, -10, -40}[r.intn(3)]
+		p.Knobs["behaviour_threshold"] = 0
+		p.Knobs["behaviour_decay"] = 0.9
+	}
 	np := r.rng(3, 8)
 	thr := []int{g, pu, gr, 0}
 	scoreNear := func() int64 {
@@ -91,8 +100,21 @@ func genC09(seed uint64, tier string) *Plan {
 			add("ihave", i, 0, int64(r.rng(1, 3)))
 		case x < 44:
 			add("iwant", i, int64(r.intn(6)))
-		case x < 54:
+		case x < 50:
 			add("graft", i, 0)
+		case x < 54:
+			if two {
+				// the peer is pruned from one topic (back-off) and then GRAFTs both topics in one RPC
+				first := int64(r.intn(2))
+				add("sub", i, 1)
+				add("graftraw", i, first)
+				add("adv", int64(r.rng(10, 900)))
+				add("prune", i, first, int64(r.intn(3)), 0)
+				add("adv", int64(r.rng(10, 900)))
+				add("graft2", i, first)
+			} else {
+				add("graft", i, 0)
+			}
 		case x < 62:
 			add("prunepx", i, 0, int64(r.intn(5)), int64(r.intn(3))) // [peer, topic, px kind, backoff]
 		case x < 66:
@@ -107,9 +129,12 @@ func genC09(seed uint64, tier string) *Plan {
 			add("direct-add", i)
 		case x < 95:
 			add("direct-rm", i)
-		case x < 97:
+		case x < 96:
 			add("node-cancel", int64(r.intn(2)))
 			add("node-sub", 0)
+		case x < 98:
+			// join the second topic, for which there may be a fanout from earlier publications
+			add("node-sub", 1)
 		default:
 			add("resend", i, int64(r.intn(5)))
 		}
@@ -223,6 +248,19 @@ func runC09(s *sim) {
 		}
 		fp.send(rpcPrune(w.topicName(it.a(1)), uint64(it.a(3)), px))
 	}
+	w.extraOps["graftraw"] = func(it Item) { // [peer, topic]: a GRAFT that is not judged by the per-item rules (they speak of t0)
+		if fp := w.fake(int(it.a(0))); fp != nil && fp.outAlive() {
+			fp.send(rpcGraft(w.topicName(it.a(1))))
+		}
+	}
+	w.extraOps["graft2"] = func(it Item) { // [peer, first topic]: GRAFT for both topics in one RPC
+		fp := w.fake(int(it.a(0)))
+		if fp == nil || !fp.outAlive() {
+			return
+		}
+		a, b := w.topicName(it.a(1)), w.topicName(1-it.a(1))
+		fp.send(rpcGraft(a, b))
+	}
 	w.extraOps["pubgraft"] = func(it Item) {
 		fp := w.fake(int(it.a(0)))
 		if fp == nil || !fp.outAlive() {
@@ -260,6 +298,17 @@ func runC09(s *sim) {
 			return
 		}
 		post := w.snapshot()
+		// with a negative score a peer is never grafted - not by Join out of the fanout either
+		// (heartbeat windows are judged by the heartbeat rules below)
+		if it.Op != "adv" {
+			for t, m := range post.mesh {
+				for id := range m {
+					if !pre.mesh[t][id] && post.scores[id] < 0 && pre.scores[id] < 0 && !post.direct[id] {
+						s.violate("C09", "negative", "C09/negative/grafted", "%s (score %v) was added to the mesh of %s by %s", name(id), post.scores[id], t, it.Op)
+					}
+				}
+			}
+		}
 		// PX connects requested in this step must be legal
 		w.n.h.mu.Lock()
 		newConns := append([]peer.AddrInfo(nil), w.n.h.connects[connMark:]...)
@@ -270,6 +319,24 @@ func runC09(s *sim) {
 			} else {
 				s.probe("px_connect_followed")
 			}
+		}
+		if it.Op == "graft2" {
+			// GRAFT a, GRAFT b in one RPC: when the first is refused inside the back-off and the penalty
+			// makes the score negative, the second must not be admitted (with a negative score a peer
+			// is never grafted). Nothing else changes the score within this step.
+			if fp := w.fake(int(it.a(0))); fp != nil && pre.outAlive[int(it.a(0))] && !pre.direct[fp.id] {
+				a, b := w.topicName(it.a(1)), w.topicName(1-it.a(1))
+				exp, bo := pre.backoff[a][fp.id]
+				inBackoff := bo && s.epoch.Add(pre.t).Before(exp)
+				_, joinedA := pre.mesh[a]
+				if joinedA && inBackoff && !pre.mesh[a][fp.id] && pre.scores[fp.id] >= 0 && post.scores[fp.id] < 0 {
+					s.probe("score_turned_negative_inside_one_rpc")
+					if post.mesh[b][fp.id] && !pre.mesh[b][fp.id] {
+						s.violate("C09", "negative", "C09/negative/grafted-after-penalty-in-same-rpc", "%s sent GRAFT %s (refused inside the back-off, penalised: score %v -> %v) and GRAFT %s in one RPC; the second was admitted although the score was negative by then", fp.name, a, pre.scores[fp.id], post.scores[fp.id], b)
+					}
+				}
+			}
+			return
 		}
 		var sender *fakePeer
 		switch it.Op {
